@@ -133,8 +133,11 @@ func main() {
 			feat.Stale, feat.Adversary, feat.Handles, feat.TwoTimeouts = true, true, true, true
 		}
 		res := report.New(name, *seed, *tier)
-		n := 60
+		n := 500
 		if *tier == "thorough" {
+			n = 8000
+		}
+		if name == "sim-adversary" && *tier != "thorough" {
 			n = 1500
 		}
 		if *count > 0 {
